@@ -3108,7 +3108,9 @@ class QuicConnection:
                 #
                 # ACK frames are not congestion controlled: write them before
                 # any frame which may not fit into the congestion window.
-                if space.ack_at is not None and space.ack_at <= now:
+                if space.ack_at is not None and (
+                    space.ack_at <= now or self._probe_pending
+                ):
                     self._write_ack_frame(builder=builder, space=space, now=now)
 
                 # PATH CHALLENGE
